@@ -13,6 +13,9 @@
 (*   "fn"   pool.run(fn) -> future                                         *)
 (*   "det"  pool.run_detached(fn)                                          *)
 (*   "asy"  pool.run(async) -> future                                      *)
+(*   "fnx"  pool.run(fn) whose fn throws: the exception is the outcome of   *)
+(*          the future; the worker goes on      thread_pool.h:266-275      *)
+(*   "asx"  pool.run(async) whose coroutine throws                         *)
 (*   "res"  pool.resume(suspend_point holding a coroutine)                 *)
 (*   "wst"  pool.run_detached(job that calls pool.stop() on the worker)    *)
 (*   "aw"   coroutine doing co_await pool(future): started on the client;  *)
@@ -25,9 +28,32 @@
 (*          NEXT "aw" of the script): resolution on a worker, racing with  *)
 (*          the client between await_ready() and the subscription          *)
 (*   "rv"   the client resolves the future awaited by the PREVIOUS "aw"    *)
+(* Submissions whose body itself submits to the same pool (NESTED: the     *)
+(* child submission has the id parent + Len(Script), the grandchild        *)
+(* parent + 2*Len(Script); a worker that runs the parent leg takes the     *)
+(* pool lock once more for the child's enqueue() and then RETURNS to its   *)
+(* dequeue loop -- a coroutine job that suspends releases its worker):     *)
+(*   "asn"  pool.run(async) whose coroutine does `co_await pool` (child    *)
+(*          "co") before it returns: the run() future is resolved when     *)
+(*          the whole chain is over                                        *)
+(*   "as2"  the same with two consecutive `co_await pool` (child "con")    *)
+(*   "acu"  the same with `co_await thread_pool::current()`: not suspended *)
+(*          when the pool is already stopped (await_ready)                 *)
+(*   "asr"  pool.run(async) whose coroutine does `co_await pool.run(fn)`   *)
+(*          (child "fna": a run(fn) whose future the coroutine awaits)     *)
+(*   "con"  coroutine doing `co_await pool` twice (child "co")             *)
+(*   "dtn"  run_detached(fn) whose fn calls pool.run_detached(fn2)         *)
+(*   "fnn"  run(fn) whose fn calls pool.run(fn2) and keeps the future      *)
+(*          WITHOUT waiting for it (waiting there would be the user's      *)
+(*          dead-lock)                                                     *)
 (* and of "stop" (pool.stop() from the client).  The pool has the workers  *)
 (* WOrder (creation order).  stop() can thus run on the client, on a       *)
-(* worker, or on both concurrently.                                        *)
+(* worker, or on both concurrently.  With SecondStopper there is a second  *)
+(* client thread "d" that calls pool.stop() once, at any time after the    *)
+(* pool has been constructed (another owner's stop() / the destructor on   *)
+(* another thread): two external stop() calls overlap at lock grain.       *)
+(* Whoever runs the critical section of stop() first takes the thread      *)
+(* list; every stopper joins only what it took.                            *)
 (*                                                                         *)
 (* Where a closure dies decides how its submission ends: a closure that    *)
 (* is rejected by enqueue() (pool already stopped) dies in the submitter's *)
@@ -40,17 +66,41 @@
 EXTENDS Naturals, Sequences, FiniteSets, TLC
 
 CONSTANTS Script,    \* e.g. <<"co", "fn", "stop">>
-          WOrder     \* e.g. <<"w1", "w2">>
+          WOrder,    \* e.g. <<"w1", "w2">>
+          SecondStopper  \* BOOLEAN: a second client thread "d" calls stop() once
 
 Workers == {WOrder[i] : i \in 1..Len(WOrder)}
-Threads == Workers \cup {"c"}
-Jobs == {i \in 1..Len(Script) : Script[i] \notin {"stop", "rv"}}
+Threads == Workers \cup {"c"} \cup (IF SecondStopper THEN {"d"} ELSE {})
+N == Len(Script)
+(* nested submissions *)
+HasChild(k) == k \in {"asn", "as2", "acu", "asr", "con", "dtn", "fnn"}
+ChildKind(k) == CASE k \in {"asn", "acu", "con"} -> "co"
+                  [] k = "as2" -> "con"
+                  [] k = "asr" -> "fna"
+                  [] k = "fnn" -> "fn"
+                  [] k = "dtn" -> "det"
+                  [] OTHER -> "none"
+Kind(j) == IF j <= N THEN Script[j]
+           ELSE IF j <= 2 * N THEN ChildKind(Script[j - N])
+           ELSE ChildKind(ChildKind(Script[j - 2 * N]))
+TopJobs == {i \in 1..N : Script[i] \notin {"stop", "rv"}}
+Jobs == TopJobs \cup {N + i : i \in {k \in TopJobs : HasChild(Kind(k))}}
+                \cup {2 * N + i : i \in {k \in TopJobs : HasChild(Kind(k)) /\ HasChild(Kind(N + k))}}
 AwJobs == {i \in 1..Len(Script) : Script[i] = "aw"}
-(* the "aw" job whose future script element i resolves (0: none) *)
+(* the "aw" job whose future script element i resolves (0: none).  Every future has ONE promise, which is resolved at
+   most once: the elements of a run of "rvj" are paired in order with the "aw" elements that follow (the first "rvj"
+   with the first "aw" after it, the second with the second ...); the elements of a run of "rv" with the "aw" elements
+   that precede (the first "rv" with the last "aw" before it, the second with the one before that ...) *)
+NthUp(S, r) == IF Cardinality(S) < r THEN 0 ELSE CHOOSE k \in S : Cardinality({m \in S : m <= k}) = r
+NthDown(S, r) == IF Cardinality(S) < r THEN 0 ELSE CHOOSE k \in S : Cardinality({m \in S : m >= k}) = r
+RunRank(i) == Cardinality({m \in 1..(i - 1) : Script[m] = Script[i] /\ \A x \in m..i : Script[x] # "aw"})
 Target(i) ==
-    IF Script[i] = "rvj" THEN (IF \E k \in AwJobs : k > i THEN CHOOSE k \in AwJobs : k > i /\ \A m \in AwJobs : m > i => k <= m ELSE 0)
-    ELSE IF Script[i] = "rv" THEN (IF \E k \in AwJobs : k < i THEN CHOOSE k \in AwJobs : k < i /\ \A m \in AwJobs : m < i => k >= m ELSE 0)
+    IF Script[i] = "rvj" THEN NthUp({k \in AwJobs : k > i}, RunRank(i) + 1)
+    ELSE IF Script[i] = "rv" THEN NthDown({k \in AwJobs : k < i}, RunRank(i) + 1)
     ELSE 0
+(* no two script elements resolve the same future *)
+ASSUME \A i1, i2 \in 1..Len(Script) : (i1 # i2 /\ Script[i1] \in {"rvj", "rv"} /\ Script[i2] \in {"rvj", "rv"} /\ Target(i1) # 0)
+                                        => Target(i1) # Target(i2)
 
 VARIABLES
     q,         \* _queue: sequence of job ids
@@ -64,7 +114,7 @@ VARIABLES
     sth,       \* per thread executing stop(): swapped-out thread list still to join
     sq,        \* per thread executing stop(): swapped-out queue
     iscur,     \* per worker: thread-local _current still points to the pool
-    jst,       \* per job: "new" | "waiting" (aw: subscribed, suspended) | "queued" | "running" | "ran" | "cancelled" | "dropped"
+    jst,       \* per job: "unborn" (nested submission not made yet) | "new" | "waiting" (aw: subscribed, suspended) | "queued" | "running" | "ran" | "cancelled" | "dropped"
     resolved,  \* per aw job: its future has been resolved
     ranby,     \* per job: thread that executed it ("none")
     wdone      \* workers whose thread function returned
@@ -77,18 +127,16 @@ Init ==
     /\ pthreads = WOrder
     /\ cvwait = <<>>
     /\ notified = {}
-    /\ pc = [t \in Threads |-> IF t = "c" THEN "begin" ELSE "start"]
+    /\ pc = [t \in Threads |-> IF t = "c" THEN "begin" ELSE IF t = "d" THEN "dbegin" ELSE "start"]
     /\ cur = [t \in Threads |-> 0]
     /\ cpos = 1
     /\ sth = [t \in Threads |-> <<>>]
     /\ sq = [t \in Threads |-> <<>>]
     /\ iscur = [w \in Workers |-> TRUE]
-    /\ jst = [j \in Jobs |-> "new"]
+    /\ jst = [j \in Jobs |-> IF j <= N THEN "new" ELSE "unborn"]
     /\ resolved = [j \in AwJobs |-> FALSE]
     /\ ranby = [j \in Jobs |-> "none"]
     /\ wdone = {}
-
-Kind(j) == Script[j]
 
 (* a closure dies without having been called *)
 DeadState(j) == IF Kind(j) \in {"res", "aw"} THEN "dropped" ELSE "cancelled"
@@ -138,8 +186,16 @@ CAfterEnqueue ==
     /\ pc' = [pc EXCEPT !["c"] = ClientNext(cpos + 1)]
     /\ UNCHANGED <<q, exit, pthreads, cvwait, notified, cur, sth, sq, iscur, ranby, wdone, resolved>>
 
+(* the second client thread: starts once the pool exists, then calls stop() *)
+DBegin ==
+    /\ SecondStopper
+    /\ pc["d"] = "dbegin"
+    /\ pc["c"] # "begin"
+    /\ pc' = [pc EXCEPT !["d"] = "stop_lock"]
+    /\ UNCHANGED <<q, exit, pthreads, cvwait, notified, cur, cpos, sth, sq, iscur, jst, ranby, wdone, resolved>>
+
 -----------------------------------------------------------------------------
-(* stop() -- executable by the client and by a worker (job "wst")            thread_pool.h:47-68 *)
+(* stop() -- executable by the client(s) and by a worker (job "wst")            thread_pool.h:47-68 *)
 
 StopCS(t) ==
     /\ pc[t] = "stop_lock"
@@ -163,6 +219,10 @@ StopFinish(t, ic) ==
               /\ cpos' = cpos + 1
               /\ pc' = [pc EXCEPT ![t] = ClientNext(cpos + 1)]
               /\ UNCHANGED <<cur, ranby, wdone, resolved>>
+         ELSE IF t = "d"
+         THEN /\ jst' = KillAll(sq[t], jst)
+              /\ pc' = [pc EXCEPT ![t] = "done"]
+              /\ UNCHANGED <<cpos, cur, ranby, wdone, resolved>>
          ELSE /\ jst' = [KillAll(sq[t], jst) EXCEPT ![cur[t]] = "ran"]
               /\ cur' = [cur EXCEPT ![t] = 0]
               /\ UNCHANGED <<cpos, ranby, resolved>>
@@ -238,28 +298,57 @@ WWake(w) ==
     /\ UNCHANGED <<exit, pthreads, cpos, sth, sq, iscur, ranby, wdone, resolved>>
 
 (* after the unlock: h() runs the job up to its first lock operation (none for ordinary jobs; stop() for "wst";
-   for "rvj" the enqueue() inside pool.resume() when the awaiting coroutine is already subscribed) *)
+   for "rvj" the enqueue() inside pool.resume() when the awaiting coroutine is already subscribed; for a job with a
+   nested submission the enqueue() of the child -- run(async) only STARTS the coroutine, thread_pool.h:289-297) *)
 WRun(w) ==
     /\ pc[w] = "job_run"
-    /\ ranby' = [ranby EXCEPT ![cur[w]] = w]
-    /\ IF Kind(cur[w]) = "wst"
-         THEN /\ pc' = [pc EXCEPT ![w] = "stop_lock"]
-              /\ UNCHANGED <<jst, cur, wdone, resolved>>
-         ELSE IF Kind(cur[w]) = "rvj" /\ Target(cur[w]) # 0
-         THEN LET tg == Target(cur[w]) IN
-              /\ resolved' = [resolved EXCEPT ![tg] = TRUE]
-              /\ IF jst[tg] = "waiting"
-                   THEN /\ pc' = [pc EXCEPT ![w] = "rs_enq_lock"]
-                        /\ UNCHANGED <<jst, cur, wdone>>
-                   ELSE /\ jst' = [jst EXCEPT ![cur[w]] = "ran"]
-                        /\ cur' = [cur EXCEPT ![w] = 0]
-                        /\ pc' = [pc EXCEPT ![w] = "loop_lock"]
-                        /\ UNCHANGED wdone
-         ELSE /\ jst' = [jst EXCEPT ![cur[w]] = "ran"]
-              /\ cur' = [cur EXCEPT ![w] = 0]
-              /\ pc' = [pc EXCEPT ![w] = "loop_lock"]
-              /\ UNCHANGED <<wdone, resolved>>
+    /\ LET j == cur[w]
+           \* co_await thread_pool::current() on a stopped pool: await_ready() is true, the coroutine is not suspended
+           \* and runs its second leg in the same worker                          thread_pool.h:307-318
+           inl == Kind(j) = "acu" /\ exit
+       IN
+       /\ ranby' = IF inl THEN [ranby EXCEPT ![j] = w, ![j + N] = w] ELSE [ranby EXCEPT ![j] = w]
+       /\ IF Kind(j) = "wst"
+            THEN /\ pc' = [pc EXCEPT ![w] = "stop_lock"]
+                 /\ UNCHANGED <<jst, cur, wdone, resolved>>
+            ELSE IF Kind(j) = "rvj" /\ Target(j) # 0
+            THEN LET tg == Target(j) IN
+                 /\ resolved' = [resolved EXCEPT ![tg] = TRUE]
+                 /\ IF jst[tg] = "waiting"
+                      THEN /\ pc' = [pc EXCEPT ![w] = "rs_enq_lock"]
+                           /\ UNCHANGED <<jst, cur, wdone>>
+                      ELSE /\ jst' = [jst EXCEPT ![j] = "ran"]
+                           /\ cur' = [cur EXCEPT ![w] = 0]
+                           /\ pc' = [pc EXCEPT ![w] = "loop_lock"]
+                           /\ UNCHANGED wdone
+            ELSE IF HasChild(Kind(j)) /\ ~inl
+            THEN /\ pc' = [pc EXCEPT ![w] = "nx_enq_lock"]
+                 /\ UNCHANGED <<jst, cur, wdone, resolved>>
+            ELSE /\ jst' = IF inl THEN [jst EXCEPT ![j] = "ran", ![j + N] = "ran"] ELSE [jst EXCEPT ![j] = "ran"]
+                 /\ cur' = [cur EXCEPT ![w] = 0]
+                 /\ pc' = [pc EXCEPT ![w] = "loop_lock"]
+                 /\ UNCHANGED <<wdone, resolved>>
     /\ UNCHANGED <<q, exit, pthreads, cvwait, notified, cpos, sth, sq, iscur>>
+
+(* the nested submission made by the running leg of job cur[w]: enqueue() from a worker thread.  co_awaiter::
+   await_suspend (thread_pool.h:113-137), run_detached (:250-252), run(fn) (:262-278) *)
+NEnqueue(w) ==
+    /\ pc[w] = "nx_enq_lock"
+    /\ Enqueue(w, cur[w] + N, "nx_enq_after")
+    /\ UNCHANGED <<exit, pthreads, cur, cpos, sth, sq, iscur, ranby, wdone, resolved>>
+
+(* after the unlock: a rejected child closure dies in the submitting leg's frame (co: the coroutine goes on with
+   await_canceled_exception; fn/fna: broken promise); then the leg is over -- the coroutine is suspended, the
+   function returns -- and the worker goes back to its dequeue loop: it NEVER waits for the child *)
+NAfterEnqueue(w) ==
+    /\ pc[w] = "nx_enq_after"
+    /\ LET j == cur[w]
+           n == j + N
+           j1 == IF jst[n] = "unborn" THEN [jst EXCEPT ![n] = DeadState(n)] ELSE jst
+       IN jst' = [j1 EXCEPT ![j] = "ran"]
+    /\ cur' = [cur EXCEPT ![w] = 0]
+    /\ pc' = [pc EXCEPT ![w] = "loop_lock"]
+    /\ UNCHANGED <<q, exit, pthreads, cvwait, notified, cpos, sth, sq, iscur, ranby, wdone, resolved>>
 
 -----------------------------------------------------------------------------
 (* co_await pool(future)                                                     thread_pool.h:151-170 *)
@@ -334,13 +423,14 @@ WExit(w) ==
     /\ UNCHANGED <<q, exit, pthreads, cvwait, notified, cur, cpos, sth, sq, iscur, jst, ranby, resolved>>
 
 Next ==
-    \/ CBegin \/ CEnqueue \/ CAfterEnqueue \/ CAwReady \/ CAwSubscribe \/ CResolve
+    \/ CBegin \/ CEnqueue \/ CAfterEnqueue \/ CAwReady \/ CAwSubscribe \/ CResolve \/ DBegin
     \/ \E t \in Threads : StopCS(t) \/ StopAfter(t) \/ StopJoin(t) \/ REnqueue(t) \/ RAfterEnqueue(t)
-    \/ \E w \in Workers : WStart(w) \/ WLock(w) \/ WWake(w) \/ WRun(w) \/ WExit(w)
+    \/ \E w \in Workers : WStart(w) \/ WLock(w) \/ WWake(w) \/ WRun(w) \/ WExit(w) \/ NEnqueue(w) \/ NAfterEnqueue(w)
 
-TStep(t) == \/ (t = "c" /\ (CBegin \/ CEnqueue \/ CAfterEnqueue \/ CAwReady \/ CAwSubscribe \/ CResolve))
+TStep(t) == \/ (t = "d" /\ DBegin)
+            \/ (t = "c" /\ (CBegin \/ CEnqueue \/ CAfterEnqueue \/ CAwReady \/ CAwSubscribe \/ CResolve))
             \/ StopCS(t) \/ StopAfter(t) \/ StopJoin(t) \/ REnqueue(t) \/ RAfterEnqueue(t)
-            \/ (t \in Workers /\ (WStart(t) \/ WLock(t) \/ WWake(t) \/ WRun(t) \/ WExit(t)))
+            \/ (t \in Workers /\ (WStart(t) \/ WLock(t) \/ WWake(t) \/ WRun(t) \/ WExit(t) \/ NEnqueue(t) \/ NAfterEnqueue(t)))
 
 Spec == Init /\ [][Next]_vars /\ \A t \in Threads : WF_vars(TStep(t))
 
@@ -348,7 +438,7 @@ Spec == Init /\ [][Next]_vars /\ \A t \in Threads : WF_vars(TStep(t))
 (* Properties (C11) *)
 
 Stops == {i \in 1..Len(Script) : Script[i] \in {"stop", "wst"}}
-ClientDone == pc["c"] = "done"
+ClientDone == pc["c"] = "done" /\ (SecondStopper => pc["d"] = "done")
 Quiescent == ~ ENABLED Next
 
 (* never executed twice, never executed and cancelled *)
@@ -356,14 +446,45 @@ AtMostOnce == \A j \in Jobs : ranby[j] # "none" => jst[j] \in {"running", "ran"}
 (* executed only by a worker thread of the pool; co_await pool(awaitable) documents one exception: "If the awaiting
    operation is already resolved, no thread is allocated and execution continues in current thread" *)
 RanOnWorker == \A j \in Jobs : ranby[j] = "none" \/ ranby[j] \in Workers \/ (Kind(j) = "aw" /\ ranby[j] = "c" /\ resolved[j])
-(* at quiescence after a stop every submission has been executed or cancelled -- never forgotten *)
-RunOrCancelOnce ==
-    (Quiescent /\ exit) => \A j \in Jobs : jst[j] \in {"ran", "cancelled"} \/ (Kind(j) = "aw" /\ ~resolved[j])
+(* at quiescence after a stop every submission has been executed or cancelled -- never forgotten.  A nested submission
+   that was never made (its parent leg was cancelled, or never made itself) is not a submission *)
+Settled(j) == \/ jst[j] \in {"ran", "cancelled"}
+              \/ (Kind(j) = "aw" /\ ~resolved[j])
+              \/ (j > N /\ jst[j] = "unborn" /\ jst[j - N] \in {"cancelled", "unborn"})
+RunOrCancelOnce == (Quiescent /\ exit) => \A j \in Jobs : Settled(j)
+(* a worker that holds a job is on its way through that job: it is never parked in the dequeue loop's wait, and the only
+   blocking step inside a job is the join of stop() called by a "wst" job.  In particular no worker waits for a nested
+   submission (which needs a worker) *)
+WorkerNeverWaitsForJob ==
+    \A w \in Workers : cur[w] # 0 =>
+        /\ pc[w] \in {"job_run", "nx_enq_lock", "nx_enq_after", "rs_enq_lock", "rs_enq_after", "stop_lock", "stop_after", "stop_join"}
+        /\ pc[w] \in {"stop_lock", "stop_after", "stop_join"} => Kind(cur[w]) = "wst"
+(* the state of the future returned by run(): of a function when it returned; of a coroutine when its last leg is over.
+   A leg that is resumed through the pool can be over before the worker that made the submission has come back from
+   enqueue() (the parent leg still counts as running then); a cancelled nested submission resumes the coroutine with
+   await_canceled_exception, which ends it in the harness; the coroutine of "asr" goes on when the function it awaits
+   has run or was cancelled AND it has reached its co_await *)
+RECURSIVE ChainOver(_)
+ChainOver(j) == IF ~HasChild(Kind(j)) THEN jst[j] = "ran"
+                ELSE IF Kind(j) = "asr" THEN jst[j] = "ran" /\ jst[j + N] \in {"ran", "cancelled"}
+                ELSE jst[j + N] = "cancelled" \/ ChainOver(j + N)
+HasFuture(j) == Kind(j) \in {"fn", "asy", "fnn", "fnx", "asx", "asn", "as2", "acu", "asr"}
+FutState(j) == IF jst[j] = "cancelled" THEN "broken"
+               ELSE IF Kind(j) \in {"fn", "asy", "fnn"} THEN (IF jst[j] = "ran" THEN "value" ELSE "pending")
+               ELSE IF Kind(j) \in {"fnx", "asx"} THEN (IF jst[j] = "ran" THEN "exception" ELSE "pending")
+               ELSE IF ChainOver(j) THEN "value" ELSE "pending"
+NoFutureHangs == (Quiescent /\ exit) => \A j \in Jobs : (HasFuture(j) /\ jst[j] # "unborn") => FutState(j) # "pending"
 (* a coroutine awaiting pool(future) is never left suspended once the future is resolved and the resolver has returned *)
 AwNotForgotten ==
     \A j \in AwJobs : (jst[j] = "waiting" /\ resolved[j]) => \E t \in Threads : pc[t] \in {"rs_enq_lock", "rs_enq_after"} /\ RsTarget(t) = j
 (* stop() terminates: no stuck state other than completion of the client script *)
 NoHang == Quiescent => (ClientDone /\ (exit => \A w \in Workers : pc[w] = "done"))
+(* every worker's std::thread object is owned by exactly one party: the pool, or ONE of the threads executing stop()
+   (which then joins or detaches it exactly once) *)
+SeqSet(x) == {x[i] : i \in 1..Len(x)}
+ThreadsOwnedOnce ==
+    /\ \A t1, t2 \in Threads : t1 # t2 => SeqSet(sth[t1]) \cap SeqSet(sth[t2]) = {}
+    /\ \A t \in Threads : SeqSet(sth[t]) \cap SeqSet(pthreads) = {}
 (* nothing is dropped, ever (violated by the bare-handle closures of resume(): known finding) *)
 NothingDropped == \A j \in Jobs : jst[j] # "dropped"
 Termination == <>ClientDone
